@@ -56,6 +56,9 @@ def _cases(draw, tier):
             v['luq'] = 4
         return {'kind': 'lengths', 'v': v}
     k = pct(draw)
+    if 90 <= k < 95:
+        return {'kind': 'accepted_anyway', 'which': uni(draw, 0, 40),
+                'v': draw(genargs.legal_vectors(nmax=(6, 6, 4), numinst_max=2))}
     if k == 99 or (tier == 'thorough' and k >= 97):
         # one list with more than a thousand entries (first side, or one hospital listing all)
         if draw(st.booleans()):
@@ -204,9 +207,36 @@ def check_file(text, v):
     return I, lens
 
 
+def run_accepted_anyway(case, outdir):
+    """The property speaks about every ACCEPTED run, not about the runs this harness considers
+    legal: a vector with one violated bound is normally refused (C15's statement, not asserted
+    here); should it be accepted, the files it writes must still be what the property says -
+    in particular lower <= target <= upper everywhere and lists within [pmin, pmax]."""
+    from .c15 import perturbations
+    v = case['v']
+    cands = [(n, w) for n, w in perturbations(v) if n.startswith('bound:') and 'frac' not in n
+             and w.get('numinst', 1) >= 1 and w.get('n1', 1) >= 1 and w.get('n2', 1) >= 1
+             and w.get('n3', 1) >= 1]
+    name, w = cands[case['which'] % len(cands)]
+    try:
+        status, code, err = genargs.run_generator(genargs.build_argv(w, outdir), v['seed'])
+    except Violation:
+        return Result(False, ['kind=accepted_anyway', 'skipped:exception'])
+    if status != 'ok':
+        return Result(False, ['kind=accepted_anyway', 'refused'])
+    for t in genargs.read_outputs(outdir, w['numinst']):
+        try:
+            check_file(t, w)
+        except Violation as e:
+            raise Violation(e.facet, 'run accepted although %s; %s' % (name, e.detail))
+    return Result(True, ['kind=accepted_anyway', 'accepted:' + name])
+
+
 def run_case(case):
     v = case['v']
-    outdir = genargs.fresh_outdir(nested=v['seed'] % 3 == 0)
+    outdir = genargs.fresh_outdir(nested=v['seed'] % 3 == 0, style=(v['seed'] // 3) % 5)
+    if case['kind'] == 'accepted_anyway':
+        return run_accepted_anyway(case, outdir)
     reused = bool(case.get('prior')) and bool(case.get('prior_same_dir'))
     if reused:
         # the output directory already holds files 0.txt.. of an earlier, different run
@@ -262,3 +292,4 @@ MANIFEST = {
             'refmodel.parse; numpy/random seeding makes runs reproducible.',
 }
 MANIFEST['text'] += (' ' + 'Shapes: 10..101 instances per run, n2 up to 300 with hundreds of short lists, nested output paths, an unrelated earlier Generator run in the same process.')
+MANIFEST['text'] += (' ' + 'Output directory names with upper-case letters, a blank or a trailing slash; 5% of the cases hand over a vector with one violated bound and, if the run is accepted all the same, hold its files to the same statement.')
